@@ -117,8 +117,9 @@ class NumericData(Data, ABC):
             values = np.ravel(values)
             warn("Input 'values' converted to a 1D array.")
 
-        # change nan values to nan_value
-        values[np.isnan(values)] = self.nan_value
+        # change nan values to nan_value (an array of integers holds none)
+        if not np.issubdtype(values.dtype, np.integer):
+            values[np.isnan(values)] = self.nan_value
 
         # check the length of the values
         values = self.format_length(values)
